@@ -4,3 +4,5 @@ import Fadl.Model.ToCalls
 import Fadl.Model.Aggregate
 import Fadl.Sem
 import Fadl.ValCodec
+import Fadl.PyVal
+import Fadl.Model.MetaData
